@@ -112,7 +112,7 @@ theorem C05_choice_fail_iff (g : NodeGrammar) (uni : Uni) (fuel : Nat) (inh : Bo
     (i : Inp) (m m' : M) :
     parse g uni (fuel+1) inh (.choice alts) i m = .fail m' ↔ AltsFail (parse g uni fuel inh) i alts m m' := by
   simp only [parse]
-  rw [← choiceLoop_fail_iff (parse g uni fuel inh) alts 0 i m m']
+  rw [← choiceLoop_fail_iff_altsFail (parse g uni fuel inh) alts 0 i m m']
   cases choiceLoop (parse g uni fuel inh) alts 0 i m with
   | oof => simp
   | fail mf => simp
@@ -138,7 +138,7 @@ theorem C05_choice_ok_iff (g : NodeGrammar) (uni : Uni) (fuel : Nat) (inh : Bool
       ∃ pre a post m1 v0, alts = pre ++ a :: post ∧ AltsFail (parse g uni fuel inh) i pre m m1 ∧
         parse g uni fuel inh a i m1 = .ok i' m' v0 ∧ v = .mk (.choice alts.length pre.length) [v0] := by
   simp only [parse]
-  have key := choiceLoop_ok_iff (parse g uni fuel inh) alts 0 i m
+  have key := choiceLoop_ok_iff_altsFail (parse g uni fuel inh) alts 0 i m
   cases hr : choiceLoop (parse g uni fuel inh) alts 0 i m with
   | oof =>
     simp only [reduceCtorEq, false_iff, not_exists, not_and]
